@@ -324,15 +324,22 @@ class Executor:
                 yield from go(i + 1, st1, acc + [zstr(part.value)])
                 return
             plain = isinstance(part, ast.FormattedValue) and part.conversion == -1 and part.format_spec is None
-            if plain:
-                try:
-                    outcomes = list(self.ev(part.value, st1.fork(), []))     # side-effect free probe; exceptions of hole expressions are not modelled
-                except Unsupported:
-                    outcomes = None
-                if outcomes is not None and len(outcomes) == 1 and outcomes[0][1].ty.kind == "str":
-                    yield from go(i + 1, st1, acc + [outcomes[0][1].v])
-                    return
-            yield from go(i + 1, st1, acc + [fresh(STR, "fstr").v])
+            # the hole's expression is evaluated as Python does (an expression that raises - `{opcode.decode('ascii')!r}` - raises here); an expression outside
+            # the engine's subset is skipped, and then only its exceptions are missed
+            probe_sink = []
+            try:
+                outcomes = list(self.ev(part.value, st1.fork(), probe_sink)) if isinstance(part, ast.FormattedValue) else None
+            except Unsupported:
+                outcomes, probe_sink = None, []
+            if outcomes is None:
+                yield from go(i + 1, st1, acc + [fresh(STR, "fstr").v])
+                return
+            sink.extend(probe_sink)
+            for s2, v in outcomes:
+                if plain and v.ty.kind == "str":
+                    yield from go(i + 1, s2, acc + [v.v])
+                else:
+                    yield from go(i + 1, s2, acc + [fresh(STR, "fstr").v])
 
         yield from go(0, st, [])
 
@@ -1783,11 +1790,24 @@ class Executor:
         if isinstance(t, ast.Compare) and len(t.ops) == 1 and isinstance(t.ops[0], (ast.Is, ast.IsNot)) and isinstance(t.left, ast.Name) \
                 and isinstance(t.comparators[0], ast.Constant) and t.comparators[0].value is None:
             narrow = (t.left.id, isinstance(t.ops[0], ast.Is))
+        # `if x is not None and <more>`: in the true branch every conjunct held, so x is not None there (nothing is known in the else branch)
+        narrow_true = []
+        if isinstance(t, ast.BoolOp) and isinstance(t.op, ast.And):
+            for cj in t.values:
+                if isinstance(cj, ast.Compare) and len(cj.ops) == 1 and isinstance(cj.ops[0], ast.IsNot) and isinstance(cj.left, ast.Name) \
+                        and isinstance(cj.comparators[0], ast.Constant) and cj.comparators[0].value is None:
+                    narrow_true.append(cj.left.id)
         for st2, c in self.ev(node.test, st, outs):
             for st3, br in self.fork(st2, self.truth(c, st2)):
                 if narrow is not None and narrow[0] in st3.locals and st3.locals[narrow[0]].ty.kind == "opt":
                     v = st3.locals[narrow[0]]
                     st3.locals[narrow[0]] = NONEV if br == narrow[1] else v.v[1]
+                if br:
+                    for nm in narrow_true:
+                        if nm in st3.locals and st3.locals[nm].ty.kind == "opt":
+                            v = st3.locals[nm]
+                            st3.assume(z3.Not(v.v[0]))
+                            st3.locals[nm] = v.v[1]
                 outs.extend(self.exec_block(node.body if br else node.orelse, st3))
         return outs
 
